@@ -437,6 +437,11 @@ func (o *Own) transfer(f *ssa.Function, in ssa.Instruction) {
 	case *ssa.Slice:
 		switch x.X.Type().Underlying().(type) {
 		case *types.Slice:
+			if k, ok := ssau.ConstInt(x.Max); ok && k == 0 && x.Max != nil {
+				// x[:0:0]: zero capacity — nothing can be written through it and append must allocate
+				o.setCls(x, Fresh, "zero-capacity slice expression")
+				break
+			}
 			o.flow(x.X, x)
 		case *types.Pointer: // pointer to array
 			if a, ok := x.X.(*ssa.Alloc); ok {
@@ -647,6 +652,12 @@ func (o *Own) callResult(v ssa.Value, call *ssa.Call, idx int) {
 	}
 	interesting := isSliceOrMap(v.Type())
 	callee := o.resolveCallee(cc)
+	if callee != nil && !o.inFuncs[callee] && freshReturning[extName(callee)] {
+		if interesting {
+			o.setCls(v, Fresh, "result of "+extName(callee)+" (always a new array)")
+		}
+		return
+	}
 	if callee == nil || !o.inFuncs[callee] {
 		if interesting {
 			name := "dynamic call"
@@ -677,6 +688,12 @@ var externalMutators = map[string][]int{
 	"slices.Replace": {0}, "slices.Grow": {}, "slices.Clip": {},
 	"io.ReadFull": {1}, "io.ReadAtLeast": {1}, "encoding/binary.Read": {2},
 	"math/rand.Shuffle": {}, "encoding/json.Unmarshal": {1},
+}
+
+// freshReturning: library functions whose result is always newly allocated.
+var freshReturning = map[string]bool{
+	"slices.Clone": true, "maps.Clone": true, "bytes.Clone": true, "slices.Concat": true,
+	"strings.Split": true, "strings.Fields": true, "sort.IntSlice": false,
 }
 
 func extName(f *ssa.Function) string {
